@@ -217,7 +217,7 @@ def run_engine(tier, seed, sizes=None):
                               ("numa", lambda x: x > 1)):
                 if key in f and cond(int(f[key])):
                     stats["stage2.%s.%s" % (nm, key)] = stats.get("stage2.%s.%s" % (nm, key), 0) + 1
-            for key in ("typed", "alive", "exact"):
+            for key in ("typed", "alive", "exact", "dumphyp", "dumpclauses", "osunique", "setq", "tight", "setw"):
                 if key in f and int(f[key]) == 0:
                     stats["stage2.%s.not_%s" % (nm, key)] = stats.get("stage2.%s.not_%s" % (nm, key), 0) + 1
         sy = v.get("symy")
